@@ -50,7 +50,7 @@ def run_config(cfg, exe, pid, tier, seed, workdir):
     env = {"VERIF_SEED": seed, "VERIF_TIER": tier}
     env.update(cfg.get("env", {}))
     t0 = time.time()
-    rc, out = vlib.mpirun(exe, cfg["np"], [casefile] + cfg.get("args", []), env=env, timeout=cfg.get("timeout", 1200))
+    rc, out = vlib.mpirun(exe, cfg["np"], [casefile] + cfg.get("args", []), env=env, timeout=cfg.get("timeout", 300 if tier == "quick" else 1500))
     res = {"cfg": cfg, "casefile": casefile, "rc": rc, "harness_out": out[-3000:], "verdicts": [], "wall": 0}
     if rc == 0:
         drc, dout = vlib.run_driver(casefile)
@@ -142,16 +142,16 @@ def main():
 
     # ---- 2. code side: rebuild from /repo's working tree, run harness + driver ---------------
     try:
-        asan = bool(spec.get("asan"))
-        libdir, key, dt_lib = vlib.build_repo(log, asan=asan)
-        exes = {}
-        for h in spec["harnesses"]:
-            exes[h] = vlib.build_harness(h, libdir, log, extra=spec.get("harness_flags", "") + (" " + vlib.ASAN if asan else ""))
+        configs = spec["configs"](tier, seed)
+        exes, key = {}, None
+        for asan in sorted({bool(c.get("asan", spec.get("asan"))) for c in configs}):
+            libdir, key, dt_lib = vlib.build_repo(log, asan=asan)
+            for h in sorted({c["harness"] for c in configs if bool(c.get("asan", spec.get("asan"))) == asan}):
+                exes[(h, asan)] = vlib.build_harness(h, libdir, log, extra=spec.get("harness_flags", "") + (" " + vlib.ASAN if asan else ""))
     except vlib.BuildError as e:
         log(str(e))
         log(f"[{pid}] cannot build /repo's working tree or the harness against it")
         sys.exit(2)
-    configs = spec["configs"](tier, seed)
     if a.replay:
         rp = json.load(open(a.replay))
         configs = [c for c in configs if c["tag"] == rp.get("config", {}).get("tag")] or [rp["config"]]
@@ -169,7 +169,7 @@ def main():
                 if c["np"] <= budget or not running:
                     pending.remove(c)
                     budget -= c["np"]
-                    fut = ex.submit(run_config, c, exes[c["harness"]], pid, tier, seed, workdir)
+                    fut = ex.submit(run_config, c, exes[(c["harness"], bool(c.get("asan", spec.get("asan"))))], pid, tier, seed, workdir)
                     running[fut] = c
                     started = True
             done, _ = cf.wait(list(running), return_when=cf.FIRST_COMPLETED)
